@@ -839,6 +839,9 @@ class AsyncFIXConnection:
             elif msg.msg_type == FMsg.SEQUENCERESET:
                 await self._process_seqreset(msg)
             elif msg.msg_type == FMsg.LOGOUT:
+                if int(msg[FTag.MsgSeqNum]) == self._session.next_num_in:
+                    # the session ends here, count the Logout() itself first
+                    await self._finalize_message(msg, raw_msg)
                 await self._process_logout(msg)
 
             if self._connection_state <= ConnectionState.DISCONNECTED_BROKEN_CONN:
